@@ -152,13 +152,18 @@ func (e *validator) equalsConst(v *value, c any) bool {
 		}
 		return true
 	case map[string]any:
-		m, ok := v.repr.(map[string]*value)
-		if !ok || len(m) != len(c) {
+		if _, ok := v.repr.(map[string]*value); !ok {
 			return false
 		}
-		for k, c := range c {
-			v, ok := m[k]
-			if !ok || !e.equalsConst(v, c) {
+		// Compare the object as the provider will receive it: with the properties it inherits from its base (an object
+		// that is the result of merging imports carries only some of its properties itself).
+		keys := v.keys()
+		if len(keys) != len(c) {
+			return false
+		}
+		for _, k := range keys {
+			cv, ok := c[k]
+			if !ok || !e.equalsConst(v.property(nil, k), cv) {
 				return false
 			}
 		}
